@@ -44,7 +44,8 @@ func (srv *Srv) NewConn(c net.Conn) {
 }
 
 func (conn *Conn) close() {
-	conn.done <- true
+	/* stops the send goroutine and releases every Respond waiting to hand over a reply */
+	close(conn.done)
 	conn.Srv.Lock()
 	delete(conn.Srv.conns, conn)
 	conn.Srv.Unlock()
